@@ -16,8 +16,8 @@ func ZZC08Oracle() {
 		alias = vn.Or(alias, e.Body[i].Sel == zzLabel)
 	}
 	sm, tm := vn.Int(0, 3), vn.Int(0, 3)
-	s := ZZGenNode(d, sm, e.Modes)
-	t := ZZGenNode(d, tm, e.Modes)
+	s := ZZGenNode(vn.Param("DS", d), sm, e.Modes)
+	t := ZZGenNode(vn.Param("DT", d), tm, e.Modes)
 	n := e.Fixpoint()
 	// F1: an alias definition (type A = B) makes the memo key of the unfolded pair pre-assumed
 	vn.Known("F1", alias)
